@@ -73,6 +73,23 @@ func (c *TextCase) Exec(t *eng.T) {
 		t.Fail("text:"+firstDiffClass(src, out.S), "delimiter-free source %q renders to %q", src, out.S)
 		return
 	}
+	// rendered bytes belong to the caller: they still read the same after other renderings happened
+	if tpl, o := px.Compile(set, src); tpl != nil {
+		kept, err := tpl.ExecuteBytes(nil)
+		// a rendering of the same size (fits into whatever buffer the first one used) and a much longer one
+		for _, osrc := range []string{strings.Repeat("#", len(src)), "another template, longer than the text under test: 0123456789 0123456789 {{ 1 }}"} {
+			if other, _ := px.Compile(set, osrc); other != nil {
+				other.Execute(nil)
+				other.ExecuteBytes(nil)
+			}
+		}
+		tpl.Execute(nil)
+		if err == nil && string(kept) != src {
+			t.Fail("text-bytes-overwritten", "delimiter-free source %q: the bytes returned by ExecuteBytes read %q after later renderings", src, string(kept))
+		}
+	} else {
+		_ = o
+	}
 	// the same source handed over as a byte slice the caller overwrites after the compilation
 	if o2 := px.RenderBytesScribbled(set, src, nil); o2.Failed() || o2.S != src {
 		t.Fail("text-frombytes:"+firstDiffClass(src, o2.S), "delimiter-free source %q compiled with FromBytes renders to %s after the caller reused its buffer", src, o2)
@@ -124,6 +141,11 @@ func frags() []Frag {
 		{"verbatim-tag", "{% verbatim %}{% if %}{% endverbatim %}", "{% if %}"},
 		{"verbatim-comment", "{% verbatim %}{# c #}{% endverbatim %}", "{# c #}"},
 		{"verbatim-lookalike", "{% verbatim %}endverbatim {% endverbati %}{% endverbatim %}", "endverbatim {% endverbati %}"},
+		// the end tag's NAME used as an ordinary identifier inside the comment, followed by more constructs
+		{"commenttag-endname-var", "{% comment %}{{ endcomment }}{% if 1 %}S1{% endif %}{% endcomment %}", ""},
+		{"commenttag-endname-path", "{% comment %}{{ a.endcomment }}{{ 1 }}{% if 1 %}S2{% endif %}{% endcomment %}", ""},
+		{"commenttag-endname-expr", "{% comment %}{% if 1 == endcomment %}S3{% endif %}{{ 2 }}{% endcomment %}", ""},
+		{"commenttag-nested-open", "{% comment %}{% comment %}S4{% endcomment %}", ""},
 		{"verbatim-in-verbatim", "{% verbatim %}a{% verbatim %}b{% endverbatim %}", "a{% verbatim %}b"},
 		{"verbatim-commenttag", "{% verbatim %}{% comment %}x{% endcomment %}{% endverbatim %}", "{% comment %}x{% endcomment %}"},
 		{"verbatim-nl", "{% verbatim %}\n{{\n{% endverbatim %}", "\n{{\n"},
